@@ -260,4 +260,376 @@ theorem outName_dir_stem (d stem : String) (h1 : '/' ∉ stem.toList) (h2 : '.' 
     simp
   rw [this, stem_aux _ h2, String.ofList_toList]
 
+/-! ### injectivity of `renderVal` -/
+
+theorem nat_repr_inj {n m : Nat} (h : n.repr = m.repr) : n = m := by
+  have := congrArg (fun s => Nat.ofDigitChars 10 s.toList 0) h
+  simpa using this
+
+theorem int_toString_chars (i : Int) : ∀ c ∈ (toString i).toList, c.isDigit = true ∨ c = '-' := by
+  intro c hc
+  rw [Int.toString_eq_repr, Int.repr_eq_if] at hc
+  split at hc
+  · rw [Nat.toList_repr] at hc
+    exact Or.inl (Nat.isDigit_of_mem_toDigits (by decide) (by decide) hc)
+  · rw [String.toList_append, Nat.toList_repr, List.mem_append] at hc
+    rcases hc with hc | hc
+    · right; simpa using hc
+    · exact Or.inl (Nat.isDigit_of_mem_toDigits (by decide) (by decide) hc)
+
+theorem int_toString_ne_nil (i : Int) : (toString i).toList ≠ [] := by
+  rw [Int.toString_eq_repr, Int.repr_eq_if]
+  split
+  · rw [Nat.toList_repr]; exact Nat.toDigits_ne_nil
+  · simp
+
+theorem int_toString_inj {i j : Int} (h : (toString i : String) = toString j) : i = j := by
+  rw [Int.toString_eq_repr, Int.toString_eq_repr, Int.repr_eq_if, Int.repr_eq_if] at h
+  have hd : ∀ n : Nat, ¬ ('-' ∈ n.repr.toList) := by
+    intro n hn
+    rw [Nat.toList_repr] at hn
+    have := Nat.isDigit_of_mem_toDigits (by decide) (by decide) hn
+    exact absurd this (by decide)
+  split at h <;> split at h
+  · have := nat_repr_inj h; omega
+  · exfalso
+    apply hd i.toNat
+    rw [h]; simp
+  · exfalso
+    apply hd j.toNat
+    rw [← h]; simp
+  · have h' := congrArg String.toList h
+    simp only [String.toList_append, List.append_cancel_left_eq, String.toList_inj] at h'
+    have := nat_repr_inj h'; omega
+
+/-- the string part: no quote, backslash, comma, bracket, newline; printable ASCII -/
+def StrOK (s : String) : Prop :=
+  ∀ c ∈ s.toList, c ≠ '\'' ∧ c ≠ '\\' ∧ c ≠ ',' ∧ c ≠ '[' ∧ c ≠ ']' ∧ c ≠ '\n' ∧
+    32 ≤ c.toNat ∧ c.toNat < 127
+
+/-- characters that may occur in an atom (`None`, `True`, `False`, ints, float texts) -/
+def AtomCh (c : Char) : Prop := c ≠ ',' ∧ c ≠ '[' ∧ c ≠ ']' ∧ c ≠ '\'' ∧ c ≠ ' '
+
+instance : DecidablePred AtomCh := fun c => by unfold AtomCh; infer_instance
+
+/-- float texts: non-empty, no separators, and not the text of another atom -/
+def FloatOK (r : String) : Prop :=
+  r.toList ≠ [] ∧ (∀ c ∈ r.toList, AtomCh c) ∧ r ≠ "None" ∧ r ≠ "True" ∧ r ≠ "False" ∧
+    ∀ i : Int, r ≠ toString i
+
+mutual
+def WFVal : RVal → Prop
+  | .none => True
+  | .bool _ => True
+  | .int _ => True
+  | .float r => FloatOK r
+  | .str s => StrOK s
+  | .list xs => WFList xs
+def WFList : List RVal → Prop
+  | [] => True
+  | x :: xs => WFVal x ∧ WFList xs
+end
+
+def rv (a : RVal) : List Char := (renderVal a).toList
+def rl (xs : List RVal) : List Char := (renderList xs).toList
+
+theorem rv_none : rv .none = ['N', 'o', 'n', 'e'] := rfl
+theorem rv_bool (b : Bool) : rv (.bool b) = if b then ['T', 'r', 'u', 'e'] else ['F', 'a', 'l', 's', 'e'] := by
+  cases b <;> rfl
+theorem rv_int (i : Int) : rv (.int i) = (toString i).toList := by simp [rv, renderVal]
+theorem rv_float (r : String) : rv (.float r) = r.toList := by simp [rv, renderVal]
+theorem rv_str (s : String) : rv (.str s) = '\'' :: (s.toList ++ ['\'']) := by
+  simp [rv, renderVal, CR.Report.reprStr]
+theorem rv_list (xs : List RVal) : rv (.list xs) = '[' :: (rl xs ++ [']']) := by
+  simp [rv, rl, renderVal]
+theorem rl_nil : rl [] = [] := by simp [rl, renderList]
+theorem rl_one (x : RVal) : rl [x] = rv x := by simp [rl, rv, renderList]
+theorem rl_cons2 (x y : RVal) (r : List RVal) :
+    rl (x :: y :: r) = rv x ++ ',' :: ' ' :: rl (y :: r) := by
+  simp [rl, rv, renderList]
+
+
+/-- a continuation that is empty or starts with a list delimiter -/
+def Tail (s : List Char) : Prop := ∀ c ∈ s.head?, c = ',' ∨ c = ']'
+
+theorem tail_nil : Tail [] := by simp [Tail]
+theorem tail_comma (s) : Tail (',' :: s) := by simp [Tail]
+theorem tail_close (s) : Tail (']' :: s) := by simp [Tail]
+
+def NoDelim (l : List Char) : Prop := ∀ c ∈ l, c ≠ ',' ∧ c ≠ ']'
+
+theorem split_unique : ∀ (l1 l2 s t : List Char), NoDelim l1 → NoDelim l2 → Tail s → Tail t →
+    l1 ++ s = l2 ++ t → l1 = l2 ∧ s = t
+  | [], [], s, t, _, _, _, _, h => ⟨rfl, by simpa using h⟩
+  | [], c :: l2, s, t, _, h2, hs, _, h => by
+    exfalso
+    have hc := h2 c (by simp)
+    simp only [List.nil_append] at h
+    subst h
+    have := hs c (by simp)
+    rcases this with rfl | rfl
+    · exact hc.1 rfl
+    · exact hc.2 rfl
+  | c :: l1, [], s, t, h1, _, _, ht, h => by
+    exfalso
+    have hc := h1 c (by simp)
+    simp only [List.nil_append] at h
+    subst h
+    have := ht c (by simp)
+    rcases this with rfl | rfl
+    · exact hc.1 rfl
+    · exact hc.2 rfl
+  | c :: l1, c' :: l2, s, t, h1, h2, hs, ht, h => by
+    simp only [List.cons_append, List.cons.injEq] at h
+    obtain ⟨rfl, h⟩ := h
+    have := split_unique l1 l2 s t (fun x hx => h1 x (by simp [hx])) (fun x hx => h2 x (by simp [hx])) hs ht h
+    exact ⟨by rw [this.1], this.2⟩
+
+theorem quote_unique : ∀ (l1 l2 s t : List Char), '\'' ∉ l1 → '\'' ∉ l2 →
+    l1 ++ '\'' :: s = l2 ++ '\'' :: t → l1 = l2 ∧ s = t
+  | [], [], s, t, _, _, h => ⟨rfl, by simpa using h⟩
+  | [], c :: l2, s, t, _, h2, h => by
+    simp only [List.nil_append, List.cons_append, List.cons.injEq] at h
+    exact (h2 (by rw [← h.1]; simp)).elim
+  | c :: l1, [], s, t, h1, _, h => by
+    simp only [List.nil_append, List.cons_append, List.cons.injEq] at h
+    exact (h1 (by rw [h.1]; simp)).elim
+  | c :: l1, c' :: l2, s, t, h1, h2, h => by
+    simp only [List.cons_append, List.cons.injEq] at h
+    obtain ⟨rfl, h⟩ := h
+    have := quote_unique l1 l2 s t (by intro e; apply h1; simp [e]) (by intro e; apply h2; simp [e]) h
+    exact ⟨by rw [this.1], this.2⟩
+
+def isAtom : RVal → Bool
+  | .none | .bool _ | .int _ | .float _ => true
+  | _ => false
+
+/-- 0 = atom, 1 = string, 2 = list -/
+def kind : RVal → Nat
+  | .str _ => 1
+  | .list _ => 2
+  | _ => 0
+
+def KindCh : Nat → Char → Prop
+  | 0, c => AtomCh c
+  | 1, c => c = '\''
+  | _, c => c = '['
+
+theorem atomCh_of_digit {c : Char} (h : c.isDigit = true ∨ c = '-') : AtomCh c := by
+  rcases h with h | rfl
+  · refine ⟨?_, ?_, ?_, ?_, ?_⟩ <;> (intro e; subst e; exact absurd h (by decide))
+  · decide
+
+theorem atom_chars (a : RVal) (hk : isAtom a = true) (hw : WFVal a) :
+    rv a ≠ [] ∧ ∀ c ∈ rv a, AtomCh c := by
+  cases a with
+  | none => rw [rv_none]; decide
+  | bool b => rw [rv_bool]; cases b <;> decide
+  | int i =>
+    rw [rv_int]
+    exact ⟨int_toString_ne_nil i, fun c hc => atomCh_of_digit (int_toString_chars i c hc)⟩
+  | float r => rw [rv_float]; exact ⟨hw.1, hw.2.1⟩
+  | str s => simp [isAtom] at hk
+  | list xs => simp [isAtom] at hk
+
+theorem rv_head (a : RVal) (hw : WFVal a) : ∃ c r, rv a = c :: r ∧ KindCh (kind a) c := by
+  by_cases hk : isAtom a = true
+  · obtain ⟨h1, h2⟩ := atom_chars a hk hw
+    obtain ⟨c, r, hcr⟩ := List.exists_cons_of_ne_nil h1
+    refine ⟨c, r, hcr, ?_⟩
+    have : kind a = 0 := by cases a <;> simp_all [isAtom, kind]
+    rw [this]
+    exact h2 c (by simp [hcr])
+  · cases a with
+    | str s => exact ⟨_, _, rv_str s, rfl⟩
+    | list xs => exact ⟨_, _, rv_list xs, rfl⟩
+    | _ => simp [isAtom] at hk
+
+theorem kindCh_noDelim {k : Nat} {c : Char} (h : KindCh k c) : c ≠ ',' ∧ c ≠ ']' := by
+  match k, h with
+  | 0, h => exact ⟨h.1, h.2.2.1⟩
+  | 1, h => subst h; decide
+  | _ + 2, h => subst h; decide
+
+theorem kindCh_inj {k k' : Nat} {c : Char} (hk : k ≤ 2) (hk' : k' ≤ 2) (h : KindCh k c)
+    (h' : KindCh k' c) : k = k' := by
+  match k, k', hk, hk', h, h' with
+  | 0, 0, _, _, _, _ => rfl
+  | 1, 1, _, _, _, _ => rfl
+  | 2, 2, _, _, _, _ => rfl
+  | 0, 1, _, _, h, h' => exact absurd h' h.2.2.2.1
+  | 0, 2, _, _, h, h' => exact absurd h' h.2.1
+  | 1, 0, _, _, h, h' => exact absurd h h'.2.2.2.1
+  | 2, 0, _, _, h, h' => exact absurd h h'.2.1
+  | 1, 2, _, _, h, h' => exact absurd (h.symm.trans h') (by decide)
+  | 2, 1, _, _, h, h' => exact absurd (h.symm.trans h') (by decide)
+  | _ + 3, _, hk, _, _, _ => omega
+  | _, _ + 3, _, hk', _, _ => omega
+
+theorem kind_le (a : RVal) : kind a ≤ 2 := by cases a <;> simp [kind]
+
+theorem head_clash (a b : RVal) (ha : WFVal a) (hb : WFVal b) (s t : List Char)
+    (h : rv a ++ s = rv b ++ t) : kind a = kind b := by
+  obtain ⟨c, r, hc, hk⟩ := rv_head a ha
+  obtain ⟨c', r', hc', hk'⟩ := rv_head b hb
+  rw [hc, hc'] at h
+  simp only [List.cons_append, List.cons.injEq] at h
+  obtain ⟨rfl, _⟩ := h
+  exact kindCh_inj (kind_le a) (kind_le b) hk hk'
+
+theorem atom_inj (a b : RVal) (ha : isAtom a = true) (hb : isAtom b = true)
+    (wa : WFVal a) (wb : WFVal b) (h : rv a = rv b) : a = b := by
+  have intNe : ∀ (i : Int) (l : List Char), l ≠ [] → (∀ c ∈ l.head?, ¬ (c.isDigit = true ∨ c = '-')) →
+      (toString i).toList ≠ l := by
+    intro i l hl hh e
+    obtain ⟨c, r, rfl⟩ := List.exists_cons_of_ne_nil hl
+    exact hh c (by simp) (int_toString_chars i c (by rw [e]; simp))
+  cases a <;> cases b <;> simp only [isAtom, Bool.false_eq_true] at ha hb
+  all_goals simp only [rv_none, rv_bool, rv_int, rv_float] at h
+  · rfl
+  · rename_i b; cases b <;> exact absurd h (by decide)
+  · exact absurd h.symm (intNe _ _ (by decide) (by decide))
+  · exact absurd (String.toList_inj.1 (show String.toList _ = String.toList "None" from h.symm)) wb.2.2.1
+  · rename_i b; cases b <;> exact absurd h (by decide)
+  · rename_i b b'; cases b <;> cases b' <;> first | rfl | exact absurd h (by decide)
+  · rename_i b i; cases b
+    · exact absurd h.symm (intNe _ _ (by decide) (by decide))
+    · exact absurd h.symm (intNe _ _ (by decide) (by decide))
+  · rename_i b r; cases b
+    · exact absurd (String.toList_inj.1 (show String.toList _ = String.toList "False" from h.symm)) wb.2.2.2.2.1
+    · exact absurd (String.toList_inj.1 (show String.toList _ = String.toList "True" from h.symm)) wb.2.2.2.1
+  · exact absurd h (intNe _ _ (by decide) (by decide))
+  · rename_i i b; cases b
+    · exact absurd h (intNe _ _ (by decide) (by decide))
+    · exact absurd h (intNe _ _ (by decide) (by decide))
+  · rw [int_toString_inj (String.toList_inj.1 h)]
+  · rename_i i r
+    exact absurd (String.toList_inj.1 h.symm) (wb.2.2.2.2.2 i)
+  · exact absurd (String.toList_inj.1 (show String.toList _ = String.toList "None" from h)) wa.2.2.1
+  · rename_i r b; cases b
+    · exact absurd (String.toList_inj.1 (show String.toList _ = String.toList "False" from h)) wa.2.2.2.2.1
+    · exact absurd (String.toList_inj.1 (show String.toList _ = String.toList "True" from h)) wa.2.2.2.1
+  · rename_i r i
+    exact absurd (String.toList_inj.1 h) (wa.2.2.2.2.2 i)
+  · rw [String.toList_inj.1 h]
+
+
+theorem atom_noDelim (a : RVal) (hk : isAtom a = true) (hw : WFVal a) : NoDelim (rv a) :=
+  fun c hc => let h := (atom_chars a hk hw).2 c hc; ⟨h.1, h.2.2.1⟩
+
+theorem isAtom_of_kind {a : RVal} (h : kind a = 0) : isAtom a = true := by
+  cases a <;> simp_all [kind, isAtom]
+
+/-- values that are not both lists -/
+theorem nonlist_case (a b : RVal) (hab : kind a ≠ 2 ∨ kind b ≠ 2) (wa : WFVal a) (wb : WFVal b)
+    (s t : List Char) (hs : Tail s) (ht : Tail t) (h : rv a ++ s = rv b ++ t) : a = b ∧ s = t := by
+  have hk := head_clash a b wa wb s t h
+  have hka := kind_le a
+  have : kind a = 0 ∨ kind a = 1 := by omega
+  rcases this with h0 | h1
+  · have ia := isAtom_of_kind h0
+    have ib := isAtom_of_kind (hk ▸ h0)
+    have := split_unique _ _ s t (atom_noDelim a ia wa) (atom_noDelim b ib wb) hs ht h
+    exact ⟨atom_inj a b ia ib wa wb this.1, this.2⟩
+  · cases a <;> simp only [kind] at h1 <;> try omega
+    cases b <;> simp only [kind] at hk <;> try omega
+    rename_i s1 s2
+    simp only [rv_str, List.cons_append, List.cons.injEq, true_and, List.append_assoc,
+      List.nil_append] at h
+    have q1 : '\'' ∉ s1.toList := fun hc => (wa _ hc).1 rfl
+    have q2 : '\'' ∉ s2.toList := fun hc => (wb _ hc).1 rfl
+    have := quote_unique _ _ _ _ q1 q2 h
+    exact ⟨by rw [String.toList_inj.1 this.1], this.2⟩
+
+theorem rv_append_ne_close (y : RVal) (wy : WFVal y) (u s : List Char) : rv y ++ u ≠ ']' :: s := by
+  obtain ⟨c, r, hc, hk⟩ := rv_head y wy
+  rw [hc]
+  intro h
+  simp only [List.cons_append, List.cons.injEq] at h
+  exact (kindCh_noDelim hk).2 h.1
+
+mutual
+theorem renderVal_prefix : (a : RVal) → WFVal a → (b : RVal) → WFVal b →
+    ∀ s t : List Char, Tail s → Tail t → rv a ++ s = rv b ++ t → a = b ∧ s = t
+  | .list xs, wa, .list ys, wb, s, t, _, _, h => by
+    simp only [rv_list, List.cons_append, List.cons.injEq, true_and, List.append_assoc,
+      List.nil_append] at h
+    have := renderList_prefix xs wa ys wb s t h
+    exact ⟨by rw [this.1], this.2⟩
+  | .list xs, wa, .none, wb, s, t, hs, ht, h => nonlist_case _ _ (Or.inr (by simp [kind])) wa wb s t hs ht h
+  | .list xs, wa, .bool _, wb, s, t, hs, ht, h => nonlist_case _ _ (Or.inr (by simp [kind])) wa wb s t hs ht h
+  | .list xs, wa, .int _, wb, s, t, hs, ht, h => nonlist_case _ _ (Or.inr (by simp [kind])) wa wb s t hs ht h
+  | .list xs, wa, .float _, wb, s, t, hs, ht, h => nonlist_case _ _ (Or.inr (by simp [kind])) wa wb s t hs ht h
+  | .list xs, wa, .str _, wb, s, t, hs, ht, h => nonlist_case _ _ (Or.inr (by simp [kind])) wa wb s t hs ht h
+  | .none, wa, b, wb, s, t, hs, ht, h => nonlist_case _ _ (Or.inl (by simp [kind])) wa wb s t hs ht h
+  | .bool _, wa, b, wb, s, t, hs, ht, h => nonlist_case _ _ (Or.inl (by simp [kind])) wa wb s t hs ht h
+  | .int _, wa, b, wb, s, t, hs, ht, h => nonlist_case _ _ (Or.inl (by simp [kind])) wa wb s t hs ht h
+  | .float _, wa, b, wb, s, t, hs, ht, h => nonlist_case _ _ (Or.inl (by simp [kind])) wa wb s t hs ht h
+  | .str _, wa, b, wb, s, t, hs, ht, h => nonlist_case _ _ (Or.inl (by simp [kind])) wa wb s t hs ht h
+theorem renderList_prefix : (xs : List RVal) → WFList xs → (ys : List RVal) → WFList ys →
+    ∀ s t : List Char, rl xs ++ ']' :: s = rl ys ++ ']' :: t → xs = ys ∧ s = t
+  | [], _, [], _, s, t, h => by simpa [rl_nil] using h
+  | [], _, [y], wy, s, t, h => by
+    rw [rl_nil, rl_one] at h
+    exact absurd h.symm (rv_append_ne_close y wy.1 _ _)
+  | [], _, y :: y' :: r, wy, s, t, h => by
+    rw [rl_nil, rl_cons2, List.append_assoc] at h
+    exact absurd h.symm (rv_append_ne_close y wy.1 _ _)
+  | [x], wx, [], _, s, t, h => by
+    rw [rl_nil, rl_one] at h
+    exact absurd h (rv_append_ne_close x wx.1 _ _)
+  | [x], wx, [y], wy, s, t, h => by
+    rw [rl_one, rl_one] at h
+    have := renderVal_prefix x wx.1 y wy.1 _ _ (tail_close s) (tail_close t) h
+    simp only [List.cons.injEq, true_and] at this
+    exact ⟨by rw [this.1], this.2⟩
+  | [x], wx, y :: y' :: r, wy, s, t, h => by
+    rw [rl_one, rl_cons2, List.append_assoc] at h
+    have := renderVal_prefix x wx.1 y wy.1 _ _ (tail_close s) (tail_comma _) h
+    simp at this
+  | x :: x' :: r, wx, [], _, s, t, h => by
+    rw [rl_nil, rl_cons2, List.append_assoc] at h
+    exact absurd h (rv_append_ne_close x wx.1 _ _)
+  | x :: x' :: r, wx, [y], wy, s, t, h => by
+    rw [rl_one, rl_cons2, List.append_assoc] at h
+    have := renderVal_prefix x wx.1 y wy.1 _ _ (tail_comma _) (tail_close t) h
+    simp at this
+  | x :: x' :: r, wx, y :: y' :: r', wy, s, t, h => by
+    rw [rl_cons2, rl_cons2, List.append_assoc, List.append_assoc] at h
+    simp only [List.cons_append] at h
+    have h1 := renderVal_prefix x wx.1 y wy.1 _ _ (tail_comma _) (tail_comma _) h
+    have h2 := h1.2
+    simp only [List.cons.injEq, true_and] at h2
+    have h3 := renderList_prefix (x' :: r) wx.2 (y' :: r') wy.2 s t h2
+    exact ⟨by rw [h1.1, h3.1], h3.2⟩
+end
+
+theorem renderVal_inj (a b : RVal) (wa : WFVal a) (wb : WFVal b) (h : renderVal a = renderVal b) :
+    a = b := by
+  have := renderVal_prefix a wa b wb [] [] tail_nil tail_nil
+    (by simp only [List.append_nil]; exact congrArg String.toList h)
+  exact this.1
+
+
+/-- a decidable sufficient condition for `FloatOK`: some character is neither a digit nor `-`
+(Python's float `repr` always contains `.`, `e`, or is `inf`/`-inf`/`nan`) -/
+def FloatMark (r : String) : Prop :=
+  r.toList ≠ [] ∧ (∀ c ∈ r.toList, AtomCh c) ∧ r ≠ "None" ∧ r ≠ "True" ∧ r ≠ "False" ∧
+    ∃ c ∈ r.toList, ¬ (c.isDigit = true ∨ c = '-')
+
+instance : DecidablePred FloatMark := fun r => by unfold FloatMark; infer_instance
+
+instance : DecidablePred StrOK := fun s => by unfold StrOK; infer_instance
+
+theorem floatOK_of_floatMark {r : String} (h : FloatMark r) : FloatOK r := by
+  obtain ⟨h1, h2, h3, h4, h5, c, hc, hn⟩ := h
+  refine ⟨h1, h2, h3, h4, h5, ?_⟩
+  rintro i rfl
+  exact hn (int_toString_chars i c hc)
+
+theorem wfList_iff (xs : List RVal) : WFList xs ↔ ∀ x ∈ xs, WFVal x := by
+  induction xs with
+  | nil => simp [WFList]
+  | cons x xs ih => simp [WFList, ih]
+
 end CR.ReportLemmas
